@@ -30,6 +30,10 @@ CFI_PATCHES = ["pushq %rax\n.cfi_adjust_cfa_offset 8\npopq %rax\n.cfi_adjust_cfa
                # a directive in front of a label (an empty block that the assembler folds into the next one) and one behind it
                ".cfi_remember_state\n.Lc:\n.cfi_undefined 40\nnop\n.cfi_restore_state"]
 DATA_PATCH = [b"\x01", b"\x02\x03", b"\x04\x05\x06\x07"]
+# several labels at one place of a patch, in front of content whose block the assembler replaces while finalizing (data-only
+# content in a data block, a data island that is jumped over): every one of them has to follow the replacement
+MULTI_LABEL_DATA = [".Lh:\n.Lk:\n.byte 0x55", ".Lh:\n.Lk:\n.Lg:\n.byte 0x55\n.byte 0x56"]
+MULTI_LABEL_CODE = ["jmp .Lo\n.Li:\n.Lj:\n.byte 7\n.Lo:\nnop", "jmp .Lo\n.Li:\n.Lj:\n.Ln:\n.byte 7\n.byte 8\n.Lo:\n.Lp:\nnop"]
 # patches that ask for an alignment: in front of a label behind code (the assembler splits there and folds the empty aligned block into the
 # label's block), at the very start, and in front of an instruction
 ALIGN_PATCHES = ["nop\n.align 4\n.La:\nnop", ".align 8\n.Lb:\nnop\nnop", "nop\n.align 2\nnop"]
@@ -39,7 +43,8 @@ class Case:
     """A module description (pure data), independent of gtirb objects, so that it can be rebuilt identically."""
 
     def __init__(self, rnd, nfun_max=2, with_data=True, with_aux=True, with_cfi=True, mods="ins,del,rep", with_funcs=True, max_mods=3,
-                 closed_tail=False, to_proxy=True, with_lead=False, with_scope=True, with_misc=True, with_ext=False, cfi_patches=False, data_first=0.12, whole_del=0.0, inner_data=0.0, orphan_code=0.0, with_syscall=False, late_entry=0.0, align_patches=False, uneven_returns=0.0):
+                 closed_tail=False, to_proxy=True, with_lead=False, with_scope=True, with_misc=True, with_ext=False, cfi_patches=False, data_first=0.12, whole_del=0.0, inner_data=0.0, orphan_code=0.0, with_syscall=False, late_entry=0.0, align_patches=False, uneven_returns=0.0, multi_labels=False,
+                 call_history=0.0):
         self.rnd = rnd
         # bytes in front of the first block that belong to no block (the interval starts at 0x1000 - lead, the blocks at 0x1000)
         self.lead = rnd.choice((1, 2, 5)) if with_lead and rnd.random() < 0.12 else 0
@@ -180,9 +185,9 @@ class Case:
                     continue
                 used.append((off, ln))
                 if x["kind"] == "c":
-                    patch = rnd.choice(PATCHES + (CFI_PATCHES * 4 if cfi_patches else []) + (ALIGN_PATCHES * 2 if align_patches else [])).replace("{L}", f"L{rnd.choice(code_idx)}")
+                    patch = rnd.choice(PATCHES + (CFI_PATCHES * 4 if cfi_patches else []) + (ALIGN_PATCHES * 2 if align_patches else []) + (MULTI_LABEL_CODE * 2 if multi_labels else [])).replace("{L}", f"L{rnd.choice(code_idx)}")
                 else:
-                    patch = rnd.choice(DATA_PATCH) if rnd.random() < 0.75 or x.get("dsym") else rnd.choice(DATA_TEXT_PATCH)
+                    patch = rnd.choice(DATA_PATCH) if rnd.random() < 0.75 or x.get("dsym") else rnd.choice(DATA_TEXT_PATCH + (MULTI_LABEL_DATA * 2 if multi_labels else []))
                 whole = t == "del" and off == 0 and ln == self.size(i)
                 self.mods.append((i, t, off, ln, None if t == "del" else patch, whole and to_proxy and rnd.random() < 0.4))
         # one registration through AllBlocksScope(ENTRY): an insertion at offset 0 of every code block, registered at a random
@@ -194,6 +199,32 @@ class Case:
             group = [(i, "ins", 0, 0, patch, False) for i in code_idx]
             self.mods[pos:pos] = group
             self.scope_groups = {pos + k: 0 for k in range(len(group))}
+        # a history around one function F: a call to F inserted in front of F's returning block, a modification that moves F's `ret`
+        # into another block (a patch with a label in the middle of the returning block: the pieces cannot be joined back), and a
+        # second call to F inserted behind it.  Whatever is remembered about "the returning blocks of F" at the first call is stale
+        # at the second.
+        if call_history and not self.scope_groups and rnd.random() < call_history:
+            rnd2 = random.Random(rnd.randrange(1 << 30))
+            cands = []
+            for f in range(nfun):
+                own = [i for i, x in enumerate(layout) if x.get("func") == f]
+                entry = self.entry_of.get(f, own[0])
+                rets = [i for i in own if layout[i]["ins"][-1][0] == "ret" and len(layout[i]["ins"]) >= 2 and i not in self.unresolved]
+                for r_ in rets:
+                    before = [i for i in code_idx if i < r_]
+                    after = [i for i in code_idx if i > r_]
+                    if before and after:
+                        cands.append((entry, r_, before, after))
+            if cands:
+                entry, r_, before, after = rnd2.choice(cands)
+                touched = {m[0] for m in self.mods}
+                b0, b1 = rnd2.choice(before), rnd2.choice(after)
+                if not ({b0, b1, r_} & touched):
+                    mid = self.bounds(r_)[rnd2.randint(1, len(self.bounds(r_)) - 2)] if len(self.bounds(r_)) > 2 else None
+                    if mid is not None:
+                        self.mods.append((b0, "ins", 0, 0, f"call L{entry}", False))
+                        self.mods.append((r_, "ins", mid, 0, rnd2.choice([".Lq:\nnop", "nop\n.Lt:\nnop\njmp .Lt", "nop\nret\nnop"]), False))
+                        self.mods.append((b1, "ins", 0, 0, f"call L{entry}", False))
 
     # ---- explicit form (corpus entries do not depend on the generator)
     def to_json(self):
